@@ -477,6 +477,8 @@ def run(ctx, eng):
     from . import c20
     c20.check_push_leniency(ctx, eng)
     c20.check_lookup_contracts(ctx, eng)
+    from . import c21
+    c21.check_block_continuity(ctx, eng)
     ctx.assume('hyperframe delivers the frame types the model assumes')
     ctx.assume('the abstraction keeps the machine\'s flags and forgets header '
                'contents, payloads and counters')
